@@ -873,6 +873,7 @@ def make_adapter_lock_pub(
         # decrypt adapter sig #
         @sa @R @t decrypt_adapter_sig
         concat
+        {f'push x{sigflags} concat' if int(sigflags, 16) else ''}
 
         # check sig #
         push x{pubkey.hex()}
